@@ -49,7 +49,8 @@ Arith == {[el |-> e, o |-> o, x |-> x, y |-> y, k |-> 0] :
          \cup {[el |-> e, o |-> "scale", x |-> x, y |-> Zero5, k |-> k] :
                e \in TraitEls, x \in Nums, k \in {0, 6, -2, NaN, PInf}}
          \cup {[el |-> e, o |-> "dot", x |-> x, y |-> y, k |-> 0] : e \in TraitEls, x \in Nums, y \in Nums}
-ArithQ == {c \in Arith : c.x \in {P1, P3, P5} /\ c.y \in {P2, P4, P5, Zero5}}
+         \cup {[el |-> e, o |-> o, x |-> P6, y |-> Zero5, k |-> 0] : e \in {"c2", "c3", "c4", "c32"}, o \in {"origin", "ones", "nan"}}
+ArithQ == {c \in Arith : (c.x \in {P1, P3, P5} /\ c.y \in {P2, P4, P5, Zero5}) \/ c.o \in {"origin", "ones", "nan"}}
 ModesAll == {"set", "tup", "arith"}
 ModesST  == {"set", "tup"}
 NoArith  == {}
